@@ -4,7 +4,6 @@ import MythVerif.Proofs.WsQueueTsoTac
 namespace MythVerif.WsqTso
 open MythVerif.Wsq
 
-set_option maxHeartbeats 4000000 in
 theorem f_T_cache (s : St) (p : Pid) (x : Option Elem) (rest : List Sto) : Inv s → s.lock = .thief p →
     s.bufT p = .cache x :: rest →
     ((∃ r, s.tpc p = .wk4u r ∧ rest = []) ∨ (∃ b, s.tpc p = .vk5 b ∧ rest = []) ∨
